@@ -217,8 +217,8 @@ class PyDBMLParser:
         # first by full name, so that another table's alias cannot shadow it
         full_name = f"{schema}.{name}"
         result = self.database.table_dict.get(full_name)
-        if result is None:
-            # then by alias
+        if result is None and schema == "public":
+            # then by alias (an alias has no schema: it is not looked up for an explicitly qualified name)
             result = self.database.table_dict.get(name)
         if result is None:
             raise TableNotFoundError(f"Table {full_name} not present in the database")
